@@ -96,6 +96,51 @@ def T(x):
 SIGS = {}  # callable name -> positional parameter names (set per analysed program by report.Ctx)
 
 
+# ---------------------------------------------------------------- dict-valued terms: {**splat,k:v,...}
+def dict_parts(text):
+    """([splat term texts], {key: value text}) of a dict-literal term text `{**a,k:v,...}`; None for anything else"""
+    if not (text.startswith("{") and text.endswith("}")):
+        return None
+    depth = 0
+    for i, ch in enumerate(text):
+        if ch in "([{":
+            depth += 1
+        elif ch in ")]}":
+            depth -= 1
+            if depth == 0 and i != len(text) - 1:
+                return None
+    inner = text[1:-1]
+    splats, kv = [], {}
+    if not inner:
+        return splats, kv
+    for part in _split_top(inner, ","):
+        if part.startswith("**"):
+            splats.append(part[2:])
+            continue
+        if ":" not in part:
+            return None
+        k, v = part.split(":", 1)
+        if not k.isidentifier():
+            return None
+        kv[k] = v
+    return splats, kv
+
+
+def dict_text(splats, kv):
+    return "{" + ",".join([f"**{x}" for x in splats] + [f"{k}:{kv[k]}" for k in sorted(kv)]) + "}"
+
+
+def dict_merge(base_text, add_splats, add_kv):
+    """term text of base updated with more entries (later entries win); None when base is not a dict-literal term"""
+    bp = dict_parts(base_text)
+    if bp is None:
+        return None
+    splats, kv = list(bp[0]), dict(bp[1])
+    splats += add_splats
+    kv.update(add_kv)
+    return dict_text(splats, kv)
+
+
 # ---------------------------------------------------------------- (a // b) * b  ==  a - a % b
 def _split_top(text, sep):
     out, depth, cur, i = [], 0, "", 0
@@ -369,8 +414,21 @@ class Evaluator:
             return Term.atom("tuple(" + ",".join(self.ev(e).key() for e in node.elts) + ")")
         if isinstance(node, ast.List):
             return Term.atom("[" + ",".join(self.ev(e).key() for e in node.elts) + "]")
-        if isinstance(node, ast.Dict) and all(isinstance(k, ast.Constant) and isinstance(k.value, str) for k in node.keys):
-            return Term.atom("{" + ",".join(f"{k.value}:{self.ev(v).key()}" for k, v in sorted(zip(node.keys, node.values), key=lambda kv: kv[0].value)) + "}")
+        if isinstance(node, ast.Dict) and all(k is None or (isinstance(k, ast.Constant) and isinstance(k.value, str) and k.value.isidentifier()) for k in node.keys):
+            cur = "{}"
+            for k, v in zip(node.keys, node.values):
+                vt = self.ev(v).key()
+                if k is None:
+                    vp = dict_parts(vt)
+                    cur = dict_merge(cur, *vp) if vp is not None else dict_merge(cur, [vt], {})
+                else:
+                    cur = dict_merge(cur, [], {k.value: vt})
+            return Term.atom(cur)
+        if isinstance(node, ast.DictComp) and len(node.generators) == 1 and not node.generators[0].ifs and isinstance(node.generators[0].target, ast.Name):
+            g = node.generators[0]
+            sub = self.child(dict(self.env))
+            sub.env[g.target.id] = Term.atom("_c0")
+            return Term.atom(f"dcomp({sub.ev(node.key).key()}:{sub.ev(node.value).key()} for _c0 in {self.ev(g.iter).key()})")
         if isinstance(node, (ast.Compare, ast.BoolOp)):
             return Term.atom("cond(" + self.cond(node) + ")")
         if isinstance(node, (ast.ListComp, ast.GeneratorExp)) and len(node.generators) == 1 and not node.generators[0].ifs \
@@ -442,6 +500,18 @@ class Evaluator:
             body = "{" + ",".join(f"{k.arg}:{self.ev(k.value).key()}" for k in sorted(node.keywords, key=lambda k: k.arg)) + "}"
             return Term.atom(body if f.id == "dict" else f"Container({body})")
         kwd = {k.arg: self.ev(k.value).key() for k in node.keywords if k.arg}
+        star_kw = []
+        for k in node.keywords:
+            if k.arg is None:
+                vt = self.ev(k.value).key()
+                vp = dict_parts(vt)
+                if vp is not None:
+                    # f(**{**a, k: v}) is f(**a, k=v)
+                    star_kw += [f"**{x}" for x in vp[0]]
+                    for kk, vv in vp[1].items():
+                        kwd.setdefault(kk, vv)
+                else:
+                    star_kw.append(f"**{vt}")
         pos = [a.key() for a in args]
         cname = f.id if isinstance(f, ast.Name) else (f.attr if isinstance(f, ast.Attribute) else None)
         if cname == "cls" and isinstance(f, ast.Name) and self.owner:
@@ -454,7 +524,7 @@ class Evaluator:
                 pos.append(kwd.pop(params[i]))
                 i += 1
         kw = [f"{k}={v}" for k, v in kwd.items()]
-        return Term.atom(f"{fname}(" + ",".join(pos + sorted(kw)) + ")")
+        return Term.atom(f"{fname}(" + ",".join(pos + sorted(kw) + sorted(star_kw)) + ")")
 
     # ------------------------------------------------------------ conditions
     def cond(self, node):
